@@ -779,7 +779,7 @@ func (s *state) alterType(b *sqlx.Builder, alter *changeGroup, t *schema.Table, 
 		)
 		if e, ok := c.To.Type.Type.(*schema.EnumType); ok {
 			f = s.enumIdent(e)
-		} else if f, err = FormatType(c.To.Type.Type); err != nil {
+		} else if f, err = s.formatType(c.To.Type.Type); err != nil {
 			return err
 		}
 		b.P("TYPE", f)
